@@ -3,6 +3,8 @@ package main
 import (
 	"bufio"
 	"bytes"
+	"crypto/sha256"
+	"encoding/hex"
 	"fmt"
 	"go/ast"
 	"go/parser"
@@ -25,11 +27,20 @@ import (
 // guarded by a check the compiler cannot see, a parser invariant, an inlined standard-library body, ...).
 
 type bceSite struct {
-	File, Func, Kind, Expr string
-	Line, Col              int
+	File, Func, Kind, Expr, Hash string
+	Line, Col                    int
 }
 
-func (s bceSite) Key() string { return s.File + "|" + s.Func + "|" + s.Kind + "|" + s.Expr }
+// the key ends with a digest of the enclosing function's text: the audit of a site was made against that text, an edit
+// of the function makes it stale
+func (s bceSite) Key() string { return s.File + "|" + s.Func + "|" + s.Kind + "|" + s.Expr + "|h=" + s.Hash }
+
+func textDigest(fset *token.FileSet, n ast.Node) string {
+	var b bytes.Buffer
+	printer.Fprint(&b, fset, n)
+	sum := sha256.Sum256(b.Bytes())
+	return hex.EncodeToString(sum[:4])
+}
 
 var bceLine = regexp.MustCompile(`^(\S+\.go):(\d+):(\d+): Found (IsInBounds|IsSliceInBounds)`)
 
@@ -88,6 +99,7 @@ func bceSites() ([]bceSite, error) {
 		}
 		target := tf.LineStart(p.line) + token.Pos(p.col-1)
 		fn := "(file scope)"
+		digest := "00000000"
 		var best ast.Node
 		ast.Inspect(f, func(n ast.Node) bool {
 			if n == nil {
@@ -98,6 +110,7 @@ func bceSites() ([]bceSite, error) {
 			}
 			switch x := n.(type) {
 			case *ast.FuncDecl:
+				digest = textDigest(fset, x)
 				fn = x.Name.Name
 				if x.Recv != nil && len(x.Recv.List) == 1 {
 					var b bytes.Buffer
@@ -118,7 +131,7 @@ func bceSites() ([]bceSite, error) {
 				expr = expr[:90]
 			}
 		}
-		out = append(out, bceSite{p.file, fn, p.kind, expr, p.line, p.col})
+		out = append(out, bceSite{p.file, fn, p.kind, expr, digest, p.line, p.col})
 	}
 	sort.Slice(out, func(i, j int) bool {
 		if out[i].Key() != out[j].Key() {
